@@ -41,6 +41,8 @@ THEOREMS = [
         "isTarget_table_check", "isTarget_code_table_eq_model", "isTarget_all_valuations_consistent",
         "isTarget_eq_skeleton", "isTarget_code_table_eq_isTarget", "table_iff_criteria", "table_fp_label_passes",
         "table_unknown_uses_mean", "table_no_exception_in_contract",
+        # result level (filter_object_results): totality in the contract, monotonicity in the bounds, frame invariance
+        "filterResults_total", "filterResults_mono", "resultTarget_frame_invariant", "filterResults_frame_invariant",
     ]
 ]
 RULE = (
